@@ -228,3 +228,8 @@ def run(ctx):
     ctx.coverage["rule"] = "exhaustive: every descriptor list over 'ab.* ' up to length %d x every name up to length %d; random: structured lists with tabs/newlines/upper case/UTF-8 + 10%% arbitrary bytes. non-trivial = descriptor list and name both well formed (spec applies)" % (maxds, maxn)
     ctx.coverage["exhaustive"] = True
     ctx.assumptions += ["C-locale isspace/tolower", "the static resolution of the Promela and VHDL back-ends is read out of the emitted text (suite static-resolution: one state, 2-5 transitions, names over the tokens a/b/ab)"]
+
+
+def replay(ctx, path):
+    import uvlib
+    return uvlib.generic_replay(ctx, path, [("P\t", "namematch", "namematch", None), ("E\t", "namematch", "namematch", None), ("promela\t", "emit", None, None), ("vhdl\t", "emit", None, None)])
